@@ -31,7 +31,9 @@
 (* PathsAreSimple, CutoffStates, PathsOnce, PathsComplete, SpanDefinition, *)
 (* MinIsLeast, Finite (minspan / diagram); Selection (diagram); Raises.    *)
 (* A query without any required pathway, and a diagram from which every    *)
-(* pathway is eliminated, are outside the quantifier: nothing is judged.   *)
+(* pathway is eliminated (by max_energy_span or by pathway_numbers), are   *)
+(* outside the quantifier: nothing is judged.  The end points of a diagram *)
+(* are never transition states.                                            *)
 (***************************************************************************)
 EXTENDS NetworkDefs, Dec, TLC, TLCExt, Json, IOUtils
 
@@ -110,16 +112,20 @@ Kept(e) ==
    LET sorted == SortDec([i \in 1..Len(e.calls) |-> SpanOf(e.calls[i])])
        first == IF e.maxp = 0 THEN sorted ELSE SubSeq(sorted, 1, MinOf(e.maxp, Len(sorted)))
    IN SelectSeq(first, LAMBDA v : ~e.hasmax \/ Le(v, e.maxspan))
+Want(e, kept) == IF e.nums = <<>> THEN 1..Len(kept) ELSE RangeOf(e.nums) \cap (1..Len(kept))
 SelectionOK(e, kept) ==
-   LET want == IF e.nums = <<>> THEN 1..Len(kept) ELSE RangeOf(e.nums) \cap (1..Len(kept))
-       nl == Len(e.labels)
-   IN /\ {e.labels[i][1] : i \in 1..nl} = want
-      /\ \A i \in 1..(nl - 1) : e.labels[i][1] < e.labels[i + 1][1]
-      /\ \A i \in 1..nl : e.labels[i][1] \in 1..Len(kept) => Close(e.labels[i][2], kept[e.labels[i][1]], 7)
+   LET nl == Len(e.labels) IN
+   /\ {e.labels[i][1] : i \in 1..nl} = Want(e, kept)
+   /\ \A i \in 1..(nl - 1) : e.labels[i][1] < e.labels[i + 1][1]
+   /\ \A i \in 1..nl : e.labels[i][1] \in 1..Len(kept) => Close(e.labels[i][2], kept[e.labels[i][1]], 7)
+
+\* the end points of a diagram are reactant / product states (the drawing of a transition
+\* state needs the state after it)
+TSNodes == {st.nodes[i][1] : i \in {j \in 1..Len(st.nodes) : st.nodes[j][2]}}
 
 DiagramClauses(e) ==
    LET T == RangeOf(e.tg) IN
-   IF ~Judged(e, T) THEN {"UnknownEvent"} ELSE
+   IF ~Judged(e, T) \/ (T \cup {e.s}) \cap TSNodes # {} THEN {"UnknownEvent"} ELSE
    LET R == Pathways(GN, GE, e.s, T, e.c) IN
    IF R = {} THEN {} ELSE
    IF ~e.finite THEN {"Finite"} ELSE
@@ -127,7 +133,8 @@ DiagramClauses(e) ==
    \* not interrupted: stage = "enum" means the exception came out of the enumeration itself)
    PathClauses(e, IF e.raised # "" /\ e.stage = "enum" THEN {} ELSE R, T)
    \cup (LET kept == Kept(e) IN
-         IF kept = <<>> THEN {}
+         IF e.raised # "" /\ e.stage = "enum" THEN {"Raises"}
+         ELSE IF Want(e, kept) = {} THEN {}     \* nothing is left to draw: not specified
          ELSE IF e.raised # "" THEN {"Raises"}
          ELSE IF SelectionOK(e, kept) THEN {} ELSE {"Selection"})
 
